@@ -302,10 +302,72 @@ Definition observe (m : membership) : membership :=
   mkM (m_ccid m) (sort_amap (m_addresses m)) (sort_ns (m_removed m))
       (sort_amap (m_nonvotings m)) (sort_amap (m_witnesses m)).
 
+(* ---- StateMachine.handleEntry as far as membership is concerned ---- *)
+(* internal/rsm/statemachine.go: a replica applies the entries of its log in
+   index order. A config change entry goes to configChange (= [step]) WHATEVER
+   the index the on disk state machine reported when it was opened
+   (onDiskInitIndex); an ordinary update at or below that index is skipped as a
+   no-op (entryInInitDiskSM), above it it is handed to the user state machine.
+   Recovery from a snapshot record (StateMachine.apply) installs the recorded
+   membership and applied index. *)
+Inductive entry :=
+| EConfigChange (c : cc)
+| EUpdate.                       (* any entry that is not a config change *)
+Definition lentry := (entry * N)%type.   (* entry, log index *)
+
+Record replica := mkR {
+  r_members : membership;
+  r_applied : N;      (* lastApplied index *)
+  r_updates : N       (* number of entries handed to the user state machine by this incarnation *)
+}.
+
+(* entryInInitDiskSM *)
+Definition entry_in_init_disk_sm (on_disk : bool) (odi idx : N) : bool :=
+  if on_disk then idx <=? odi else false.
+
+Definition sm_handle_entry (norm : addr -> addr) (ordered on_disk : bool) (odi : N)
+           (r : replica) (e : lentry) : replica * option verdict :=
+  match fst e with
+  | EConfigChange c =>
+      let '(m', v) := step norm ordered (r_members r) (c, snd e) in
+      (mkR m' (snd e) (r_updates r), Some v)
+  | EUpdate =>
+      if entry_in_init_disk_sm on_disk odi (snd e)
+      then (mkR (r_members r) (snd e) (r_updates r), None)
+      else (mkR (r_members r) (snd e) (r_updates r + 1), None)
+  end.
+
+(* verdicts of the config change entries, in order; a panic stops the replica *)
+Fixpoint sm_run (norm : addr -> addr) (ordered on_disk : bool) (odi : N)
+         (r : replica) (es : list lentry) : replica * list verdict :=
+  match es with
+  | [] => (r, [])
+  | e :: rest =>
+      let '(r1, ov) := sm_handle_entry norm ordered on_disk odi r e in
+      match ov with
+      | Some VPanic => (r1, [VPanic])
+      | Some v => let '(r2, vs) := sm_run norm ordered on_disk odi r1 rest in (r2, v :: vs)
+      | None => sm_run norm ordered on_disk odi r1 rest
+      end
+  end.
+
+(* StateMachine.apply(ss): membership and applied index of the snapshot record *)
+Definition sm_recover (ss_members : membership) (ss_index : N) : replica :=
+  mkR (m_set ss_members) ss_index 0.
+
+(* the config change requests of a log *)
+Fixpoint cc_reqs (es : list lentry) : list req :=
+  match es with
+  | [] => []
+  | (EConfigChange c, i) :: rest => (c, i) :: cc_reqs rest
+  | (EUpdate, _) :: rest => cc_reqs rest
+  end.
+
 (* ---- the executable instance used by the differential check ---- *)
 Definition handle_ascii := handle norm_ascii.
 Definition address_equal_ascii := address_equal norm_ascii.
 Definition run_ascii := run norm_ascii.
+Definition sm_run_ascii := sm_run norm_ascii.
 
 (* mentions Z so that the extracted code has the type *)
 Definition cc_type_codes : list Z := [cc_add_node; cc_remove_node; cc_add_non_voting; cc_add_witness].
